@@ -252,8 +252,11 @@ impl RK23 {
                 xold = x;
                 x += h;
 
+                // An output point requested by the callback (XOut) needs the interpolant of this step too
+                let event = xout.map_or(false, |xo| xo <= x);
+
                 // Prepare dense output
-                if self.dense_output && solout.is_some() {
+                if (self.dense_output || event) && solout.is_some() {
                     cont[0..n].copy_from_slice(&ye);
                     for i in 0..n {
                         cont[n + i] = k1[i];
@@ -264,7 +267,6 @@ impl RK23 {
 
                 // Optional callback function
                 if let Some(sol) = solout.as_mut() {
-                    let event = xout.map_or(false, |xo| xo <= x);
                     let interpolant = if self.dense_output || event {
                         Some(StepInterpolant::new(&cont, xold, h, Self::interpolate))
                     } else {
